@@ -560,6 +560,46 @@ func fineBadFileSurvivesDelete(seed uint64) []lib.Case {
 	return []lib.Case{cr.finish("bad-file-survives-delete#"+strconv.FormatUint(seed, 10), seed, nil, nil, "kf=K10")}
 }
 
+// ---- a topic name used again while its deletion is between freeing the name and its end: the
+// deletion tears the topic down BEFORE it frees the name, so whoever comes next gets a fresh,
+// empty topic - never a second topic object over the dying one's disk queue ----
+func fineReuseWhileTopicDeleting(seed uint64) []lib.Case {
+	cr := newFineCase(seed, 0) // mem-queue-size 0: the backlog is in the disk queues
+	cr.opCreateTopic(1)
+	cr.opCreateChan(1, 1)
+	k1 := cr.opConnect(false, false)
+	cr.opSub(k1, 1, 1)
+	cr.opRdy(k1, 1)
+	cr.opPub(1, 3, false, false) // k1 holds one, two wait in the channel's disk queue
+	cr.opPauseTopic(1, true)
+	cr.opPub(1, 2, false, false) // two more wait in the topic's own disk queue
+	reached, release := nsqd.VerifArmPark("delete-topic:after-remove", 1)
+	done := make(chan int, 1)
+	go func() { done <- cr.post("/topic/delete", url.Values{"topic": {tname(1)}}, nil) }()
+	ok := waitReached(reached, 3*time.Second)
+	cr.tag(fmt.Sprintf("delete-parked-after-remove=%v", ok))
+	n0 := len(cr.events)
+	delete(cr.topics, 1)
+	delete(cr.tpaused, 1)
+	delete(cr.hadChan, 1)
+	delete(cr.chans, [2]int{1, 1})
+	delete(cr.cpaused, [2]int{1, 1})
+	delete(cr.hadClient, [2]int{1, 1})
+	k2 := cr.opConnect(false, false)
+	cr.opSub(k2, 1, 1) // creates topic and channel anew
+	cr.opRdy(k2, 5)    // whatever the new objects could read of the old queues would arrive now
+	release()
+	code := <-done
+	ev := fmt.Sprintf("EOp (ODeleteTopic 1) %s", httpResp(code))
+	cr.events = append(cr.events[:n0], append([]string{ev}, cr.events[n0:]...)...)
+	cr.tag("delete-topic")
+	cr.nontriv = true
+	cr.after()
+	cr.opPub(1, 2, false, false) // the new topic works and keeps what it is given
+	cr.opRestart()
+	return []lib.Case{cr.finish("reuse-vs-topic-delete#"+strconv.FormatUint(seed, 10), seed, nil, nil)}
+}
+
 // ---- graceful Exit while a TOUCH is between its in-flight pop and its push back: the
 // message is in no set when the channel's backlog is written ----
 func fineExitWhileTouching(seed uint64) []lib.Case {
@@ -1101,6 +1141,7 @@ var fineScenarios = map[string]func(uint64) []lib.Case{
 	"start-during-exit":              fineStartWhileExiting,
 	"pause-many-consumers":           finePauseManyConsumers,
 	"bad-file-survives-delete":       fineBadFileSurvivesDelete,
+	"reuse-vs-topic-delete":          fineReuseWhileTopicDeleting,
 	"touch-vs-empty":                 fineEmptyWhileTouching,
 	"dscan-vs-empty":                 fineEmptyVsDeferredScan,
 	"two-deletes-on-ephemeral-topic": fineTwoDeletesOnEphemeralTopic,
@@ -1125,7 +1166,7 @@ var fineScenarios = map[string]func(uint64) []lib.Case{
 // which forced interleavings each property's profile runs
 var fineByProfile = map[string][]string{
 	"c01": {"pump-vs-sub", "deliver-vs-disconnect", "touch-cap", "exit-vs-pub", "fin-vs-timeout-scan"},
-	"c08": {"deliver-vs-empty", "sub-vs-topic-delete", "fin-vs-empty", "empty-vs-wakeup", "scan-vs-empty", "req-vs-empty", "pub-vs-topic-delete", "two-deletes-on-ephemeral-topic", "touch-vs-empty", "dscan-vs-empty", "sub-vs-channel-delete", "bad-file-survives-delete"},
+	"c08": {"deliver-vs-empty", "sub-vs-topic-delete", "fin-vs-empty", "empty-vs-wakeup", "scan-vs-empty", "req-vs-empty", "pub-vs-topic-delete", "two-deletes-on-ephemeral-topic", "touch-vs-empty", "dscan-vs-empty", "sub-vs-channel-delete", "bad-file-survives-delete", "reuse-vs-topic-delete"},
 	"c03": {"fin-vs-empty", "deliver-vs-empty", "pause-vs-pump", "pause-many-consumers"},
 	"c13": {"fin-vs-empty", "deliver-vs-empty", "touch-cap", "sub-vs-channel-delete"},
 	"c02": {"deliver-vs-disconnect", "touch-then-scan", "touch-cap", "touch-vs-timeout-scan", "sub-vs-channel-delete"},
